@@ -83,19 +83,22 @@ func (mb *mbox) removeMessage(id string) error {
 			msg = m
 			// Slice around message we are deleting
 			mb.messages = append(mb.messages[:i], mb.messages[i+1:]...)
-
-			// Emit deleted event.
-			mb.store.extHost.Events.AfterMessageDeleted.Emit(message.MakeMetadata(msg))
-
 			break
 		}
 	}
 	if msg == nil {
 		return storage.ErrNotExist
 	}
+	// Emit the deleted event once the index no longer lists the message, not before: if the
+	// index cannot be written the message is still there.
 	if err := mb.writeIndex(); err != nil {
+		if len(mb.messages) == 0 && mb.indexGone() {
+			// The index, and with it the message, is gone; only the clean-up failed.
+			mb.store.extHost.Events.AfterMessageDeleted.Emit(message.MakeMetadata(msg))
+		}
 		return err
 	}
+	mb.store.extHost.Events.AfterMessageDeleted.Emit(message.MakeMetadata(msg))
 	if len(mb.messages) == 0 {
 		// This was the last message, thus writeIndex() has removed the entire
 		// directory; we don't need to delete the raw file.
@@ -104,6 +107,12 @@ func (mb *mbox) removeMessage(id string) error {
 	// There are still messages in the index
 	log.Debug().Str("module", "storage").Str("path", msg.rawPath()).Msg("Deleting file")
 	return os.Remove(msg.rawPath())
+}
+
+// indexGone reports whether the mailbox has no index file (any more).
+func (mb *mbox) indexGone() bool {
+	_, err := os.Stat(mb.indexPath)
+	return os.IsNotExist(err)
 }
 
 // purge deletes all messages in this mailbox.
